@@ -213,7 +213,22 @@ func runTTL(t *testing.T, c ttlCase) (out outcome, err error) {
 				return
 			}
 		}
-		cache.Stop()
+		// Stop - also two overlapping calls - returns only after the background cleaner has exited
+		var sw sync.WaitGroup
+		for i := 0; i < 2; i++ {
+			sw.Add(1)
+			errs.Go(func() {
+				defer sw.Done()
+				cache.Stop()
+				if len(c.Ops)%6 != 0 {
+					return // the goroutine-state snapshot is comparatively expensive: every sixth history
+				}
+				if n, st := vk.HelpersParked("ttlcache."); n > 0 {
+					errs.Failf("a Stop call returned while the background cleaner is still parked:\n%s", st)
+				}
+			})
+		}
+		sw.Wait()
 		stopped = true
 		cache.Stop() // idempotent
 	})
